@@ -254,7 +254,8 @@ type rawTable struct {
 	Cols    []rawCol
 	Idx     []rawIdx
 	FKs     []rawFK
-	AutoInc bool // behavioural: see rawAutoInc
+	AutoInc bool   // behavioural: see rawProbe
+	Probe   string // values of the generated columns of the probe row
 }
 
 func q(s string) string { return "'" + strings.ReplaceAll(s, "'", "''") + "'" }
@@ -353,67 +354,77 @@ func rawCatalogue(db *sql.DB) ([]rawTable, error) {
 			t.FKs[k].RefCols = append(t.FKs[k].RefCols, to.String)
 		}
 		rows.Close()
-		t.AutoInc = rawAutoInc(db, t)
+		t.AutoInc, t.Probe = rawProbe(db, t)
 	}
 	return ts, nil
 }
 
-// rawAutoInc decides AUTOINCREMENT behaviourally, without reading the CREATE
-// text: inside a transaction that is rolled back, with foreign keys and
-// triggers out of the way, insert one row of defaults; a table declared
-// AUTOINCREMENT (and only such a table) gets a row in sqlite_sequence.
-// Falls back to false when the probe insert is impossible (NOT NULL column
-// without default): the generator keeps such tables out of the autoinc class.
-func rawAutoInc(db *sql.DB, t *rawTable) bool {
-	var n int
-	if err := db.QueryRow("SELECT count(*) FROM sqlite_master WHERE name = 'sqlite_sequence'").Scan(&n); err != nil || n == 0 {
-		return false
-	}
+// rawProbe observes, without reading the CREATE text, two facts no PRAGMA
+// reports: AUTOINCREMENT and the values of generated columns.  Inside a
+// transaction that is rolled back, with foreign keys and CHECK constraints out
+// of the way, one row holding 7 in every ordinary column is inserted; a table
+// declared AUTOINCREMENT (and only such a table) then has a row in
+// sqlite_sequence, and the generated columns of the row are read back.
+func rawProbe(db *sql.DB, t *rawTable) (autoinc bool, probe string) {
 	ctx := context.Background()
 	conn, err := db.Conn(ctx)
 	if err != nil {
-		return false
+		return false, "n/a"
 	}
 	defer conn.Close()
 	conn.ExecContext(ctx, "PRAGMA foreign_keys = off")
 	defer conn.ExecContext(ctx, "PRAGMA foreign_keys = on")
-	if _, err := conn.ExecContext(ctx, "BEGIN"); err != nil {
-		return false
-	}
-	defer conn.ExecContext(ctx, "ROLLBACK")
-	// A single-column INTEGER pk is the only candidate.
-	var pk []rawCol
-	for _, c := range t.Cols {
-		if c.PK > 0 {
-			pk = append(pk, c)
-		}
-	}
-	if len(pk) != 1 {
-		return false
-	}
-	var cols, vals []string
-	for _, c := range t.Cols {
-		if c.Hidden != 0 || c.PK > 0 {
-			continue
-		}
-		if c.NotNull && !c.HasDflt {
-			cols = append(cols, `"`+strings.ReplaceAll(c.Name, `"`, `""`)+`"`)
-			vals = append(vals, "0")
-		}
-	}
-	ins := "INSERT OR IGNORE INTO \"" + strings.ReplaceAll(t.Name, `"`, `""`) + "\" DEFAULT VALUES"
-	if len(cols) > 0 {
-		ins = "INSERT OR IGNORE INTO \"" + strings.ReplaceAll(t.Name, `"`, `""`) + "\" (" + strings.Join(cols, ", ") + ") VALUES (" + strings.Join(vals, ", ") + ")"
-	}
 	conn.ExecContext(ctx, "PRAGMA ignore_check_constraints = on")
 	defer conn.ExecContext(ctx, "PRAGMA ignore_check_constraints = off")
+	if _, err := conn.ExecContext(ctx, "BEGIN"); err != nil {
+		return false, "n/a"
+	}
+	defer conn.ExecContext(ctx, "ROLLBACK")
+	dq := func(s string) string { return `"` + strings.ReplaceAll(s, `"`, `""`) + `"` }
+	var cols, vals, gens []string
+	for _, c := range t.Cols {
+		if c.Hidden != 0 {
+			gens = append(gens, "quote("+dq(c.Name)+")")
+			continue
+		}
+		v := "7"
+		if t.Strict {
+			switch strings.ToLower(c.Type) {
+			case "text":
+				v = "'7'"
+			case "blob":
+				v = "x'07'"
+			}
+		}
+		cols = append(cols, dq(c.Name))
+		vals = append(vals, v)
+	}
+	ins := "INSERT INTO " + dq(t.Name) + " (" + strings.Join(cols, ", ") + ") VALUES (" + strings.Join(vals, ", ") + ")"
 	if _, err := conn.ExecContext(ctx, ins); err != nil {
-		return false
+		return false, "n/a"
 	}
-	if err := conn.QueryRowContext(ctx, "SELECT count(*) FROM sqlite_sequence WHERE name = ?", t.Name).Scan(&n); err != nil {
-		return false
+	var n int
+	if err := conn.QueryRowContext(ctx, "SELECT count(*) FROM sqlite_master WHERE name = 'sqlite_sequence'").Scan(&n); err == nil && n > 0 {
+		if err := conn.QueryRowContext(ctx, "SELECT count(*) FROM sqlite_sequence WHERE name = ?", t.Name).Scan(&n); err == nil && n > 0 {
+			autoinc = true
+		}
 	}
-	return n > 0
+	if len(gens) == 0 {
+		return autoinc, "-"
+	}
+	dest := make([]any, len(gens))
+	strs := make([]sql.NullString, len(gens))
+	for i := range dest {
+		dest[i] = &strs[i]
+	}
+	if err := conn.QueryRowContext(ctx, "SELECT "+strings.Join(gens, ", ")+" FROM "+dq(t.Name)).Scan(dest...); err != nil {
+		return autoinc, "n/a"
+	}
+	var l []string
+	for _, x := range strs {
+		l = append(l, x.String)
+	}
+	return autoinc, strings.Join(l, ",")
 }
 
 // rawCanon prints the raw catalogue canonically.  Index names generated by
@@ -424,13 +435,21 @@ func rawCanon(ts []rawTable, withChecksFromSQL bool) []string {
 	tt := append([]rawTable(nil), ts...)
 	sort.Slice(tt, func(i, j int) bool { return tt[i].Name < tt[j].Name })
 	for _, t := range tt {
-		out = append(out, fmt.Sprintf("table %q wr=%v strict=%v autoinc=%v", t.Name, t.WR, t.Strict, t.AutoInc))
+		out = append(out, fmt.Sprintf("table %q wr=%v strict=%v autoinc=%v generated-values=[%s]", t.Name, t.WR, t.Strict, t.AutoInc, t.Probe))
 		for _, c := range t.Cols {
 			d := "-"
 			if c.HasDflt {
 				d = c.Dflt
+				// DEFAULT "x" is the legacy spelling of the string literal 'x'.
+				if len(d) >= 2 && d[0] == '"' && d[len(d)-1] == '"' && !strings.Contains(d[1:len(d)-1], `"`) && !strings.Contains(d, "'") {
+					d = "'" + d[1:len(d)-1] + "'"
+				}
 			}
-			out = append(out, fmt.Sprintf("  col %q type=%q notnull=%v dflt=%s pk=%d hidden=%d", c.Name, strings.ToLower(c.Type), c.NotNull, d, c.PK, c.Hidden))
+			typ := strings.ToLower(c.Type)
+			if typ == "" && !t.Strict {
+				typ = "blob" // no declared type = BLOB affinity; Atlas prints it as blob
+			}
+			out = append(out, fmt.Sprintf("  col %q type=%q notnull=%v dflt=%s pk=%d hidden=%d", c.Name, typ, c.NotNull, d, c.PK, c.Hidden))
 		}
 		var is []string
 		for _, x := range t.Idx {
